@@ -3,6 +3,8 @@ import FxpVerif.Model.Reduce
 import FxpVerif.Model.Convert
 import FxpVerif.Props.C14
 import FxpVerif.Props.C15
+import FxpVerif.Props.C12
+import FxpVerif.Model.Resize
 /-! # C02 — every produced object is well-formed -/
 namespace Fxp.C02
 open Fxp Fmt
@@ -251,5 +253,59 @@ theorem chk_side_sound (f : Fmt) (v : ℚ) (c : ℤ) (h : Chk.c02side f v c = tr
 example : quantize ⟨true, 8, 0⟩ .trunc .saturate (2 ^ 1000) = 127 := by decide +kernel
 example : quantize ⟨true, 8, 0⟩ .trunc .saturate (-(2 ^ 63)) = -128 := by decide +kernel
 example : (runP [] [.store ⟨true, 4, 0⟩ .trunc .saturate [100, -3], .neg 0, .sum 1 .wrap]).length = 3 := by decide +kernel
+
+/-! ### `resize`: the size attributes stay consistent whatever combination of arguments is used -/
+
+/-- **n_int = n_word − n_frac − sign bit** after every successful `resize`, for every combination of `signed`, `n_word`,
+`n_frac`, `n_int` and `dtype=` arguments and every previous state (consistent or not). -/
+theorem resize_nint_consistent (old m : Meta) (a : ResizeArgs) (h : resizeMeta old a = some m) :
+    m.nint = m.nword - m.nfrac - signBit m.signed := by
+  unfold resizeMeta at h
+  split at h
+  · split at h
+    · exact absurd h (by simp)
+    · split at h
+      · exact absurd h (by simp)
+      · simp only [Option.some.injEq] at h; subst h; simp [storeSizes]
+  · simp only [Option.some.injEq] at h; subst h; simp [storeSizes]
+
+/-- **`resize(dtype=x.dtype)` reproduces x's format**, sign bit included, from any previous state — in particular when
+the string flips the signedness of the object. -/
+theorem resize_dtype_render (old : Meta) (f : Fmt) (cx : Bool) :
+    resizeMeta old { dtype := some (renderFxp f cx) } = some f.meta := by
+  unfold resizeMeta
+  simp only [Option.isSome_none, Bool.or_self, Bool.false_eq_true, if_false]
+  rw [C12.parse_render_fxp]
+  simp [resolveNInt, storeSizes, Fmt.meta, Fmt.nint, signBit]
+
+/-- all three of `signed`, `n_word`, `n_frac` given: they are what the object has afterwards. -/
+theorem resize_positional (old : Meta) (s : Bool) (w f : ℤ) :
+    resizeMeta old { signed := some s, nword := some w, nfrac := some f } = some ⟨s, w, f, w - f - signBit s⟩ := by
+  simp [resizeMeta, resolveNInt, storeSizes]
+
+/-- `resize(signed=s, n_int=i, n_frac=f)`: the word is `i + f + sign bit of s` and `n_int` is the `i` asked for. -/
+theorem resize_nint_nfrac (old : Meta) (s : Bool) (i f : ℤ) :
+    resizeMeta old { signed := some s, nint := some i, nfrac := some f } = some ⟨s, i + f + signBit s, f, i⟩ := by
+  simp only [resizeMeta, resolveNInt, storeSizes, Option.getD_some, Option.some.injEq, Meta.mk.injEq, true_and]
+  omega
+
+/-- `resize(signed=s, n_word=w, n_int=i)`: the fraction is `w − i − sign bit of s` and `n_int` is the `i` asked for. -/
+theorem resize_nword_nint (old : Meta) (s : Bool) (w i : ℤ) :
+    resizeMeta old { signed := some s, nword := some w, nint := some i } = some ⟨s, w, w - i - signBit s, i⟩ := by
+  simp only [resizeMeta, resolveNInt, storeSizes, Option.getD_some, Option.some.injEq, Meta.mk.injEq, true_and]
+  omega
+
+/-- `dtype=` excludes every other size argument. -/
+theorem resize_dtype_exclusive (old : Meta) (str : List Char) (s : Bool) :
+    resizeMeta old { dtype := some str, signed := some s } = none := by
+  simp [resizeMeta]
+
+/-- a sign-only resize keeps word and fraction and moves exactly one bit between sign and integer part. -/
+theorem resize_sign_only (old : Meta) (s : Bool) :
+    resizeMeta old { signed := some s } = some ⟨s, old.nword, old.nfrac, old.nword - old.nfrac - signBit s⟩ := by
+  simp [resizeMeta, resolveNInt, storeSizes]
+
+example : resizeMeta ⟨true, 16, 4, 11⟩ { dtype := some "fxp-u12/4".toList } = some ⟨false, 12, 4, 8⟩ := by decide +kernel
+example : resizeMeta ⟨false, 8, 4, 4⟩ { dtype := some "S4.4".toList } = some ⟨true, 8, 4, 3⟩ := by decide +kernel
 
 end Fxp.C02
